@@ -5,6 +5,7 @@ import (
 	"go/ast"
 	"go/constant"
 	"go/types"
+	"sort"
 	"strconv"
 
 	"golang.org/x/tools/go/packages"
@@ -19,6 +20,99 @@ type TableCheck struct {
 	NonEmpty [][2]int `json:"nonempty"` // index ranges (inclusive) whose string entry must be non-empty
 	// Expect: index -> exact expected string (e.g. JSON escapes)
 	Expect map[string]string `json:"expect"`
+	// Rows: the variable is a [][]string-like literal that must equal these rows exactly
+	Rows [][]string `json:"rows"`
+	// map literal checks (keys are constant strings)
+	MapKeyMinLen    int      `json:"map_key_min_len"`
+	MapKeyMaxLen    int      `json:"map_key_max_len"`
+	MapKeysContain  []string `json:"map_keys_contain"`
+	MapKeysInRows   string   `json:"map_keys_in_rows"` // every key must occur in this [][]string variable
+	MapValuesNonNil bool     `json:"map_values_non_nil"`
+}
+
+// literalOf finds the composite literal initialising a package-level variable.
+func (e *Engine) literalOf(pkgPath, varName string) (*ast.CompositeLit, *packages.Package) {
+	for _, p := range e.loaded {
+		if p.PkgPath != pkgPath {
+			continue
+		}
+		for _, f := range p.Syntax {
+			for _, d := range f.Decls {
+				gd, ok := d.(*ast.GenDecl)
+				if !ok {
+					continue
+				}
+				for _, sp := range gd.Specs {
+					vs, ok := sp.(*ast.ValueSpec)
+					if !ok {
+						continue
+					}
+					for i, n := range vs.Names {
+						if n.Name == varName && i < len(vs.Values) {
+							if cl, ok := vs.Values[i].(*ast.CompositeLit); ok {
+								return cl, p
+							}
+						}
+					}
+				}
+			}
+		}
+	}
+	return nil, nil
+}
+
+func constString(p *packages.Package, e ast.Expr) (string, bool) {
+	tv := p.TypesInfo.Types[e]
+	if tv.Value == nil || tv.Value.Kind() != constant.String {
+		return "", false
+	}
+	return constant.StringVal(tv.Value), true
+}
+
+// rowsOf reads a [][]string-like literal.
+func (e *Engine) rowsOf(pkgPath, varName string) ([][]string, bool) {
+	cl, p := e.literalOf(pkgPath, varName)
+	if cl == nil {
+		return nil, false
+	}
+	var rows [][]string
+	for _, el := range cl.Elts {
+		inner, ok := el.(*ast.CompositeLit)
+		if !ok {
+			return nil, false
+		}
+		var row []string
+		for _, x := range inner.Elts {
+			s, ok := constString(p, x)
+			if !ok {
+				return nil, false
+			}
+			row = append(row, s)
+		}
+		rows = append(rows, row)
+	}
+	return rows, true
+}
+
+// mapOf reads a map literal with constant string keys; the value expressions are returned as AST.
+func (e *Engine) mapOf(pkgPath, varName string) (map[string]ast.Expr, *packages.Package, bool) {
+	cl, p := e.literalOf(pkgPath, varName)
+	if cl == nil {
+		return nil, nil, false
+	}
+	out := map[string]ast.Expr{}
+	for _, el := range cl.Elts {
+		kv, ok := el.(*ast.KeyValueExpr)
+		if !ok {
+			return nil, nil, false
+		}
+		k, ok := constString(p, kv.Key)
+		if !ok {
+			return nil, nil, false
+		}
+		out[k] = kv.Value
+	}
+	return out, p, true
 }
 
 func (e *Engine) tableEntries(pkgPath, varName string) (map[int64]string, bool) {
@@ -84,8 +178,97 @@ func (e *Engine) tableEntries(pkgPath, varName string) (map[int64]string, bool) 
 
 func (e *Engine) checkTable(tc TableCheck) {
 	fx := &FuncExec{eng: e, name: "table:" + tc.Pkg + "." + tc.Var}
-	entries, ok := e.tableEntries(tc.Pkg, tc.Var)
 	st := &State{fx: fx, declSet: map[string]bool{}, pcSet: map[string]bool{}}
+	tf := func(b bool) string {
+		if b {
+			return "true"
+		}
+		return "false"
+	}
+	if tc.Rows != nil {
+		rows, ok := e.rowsOf(tc.Pkg, tc.Var)
+		if !ok {
+			e.unsup[fx.name] = append(e.unsup[fx.name], "nested literal not found or not constant")
+			return
+		}
+		e.funcsDone = append(e.funcsDone, fx.name)
+		e.oblige(fx, st, "table", "rowcount", tf(len(rows) == len(tc.Rows)), fmt.Sprintf("%s has %d rows, the documented order of operations has %d", tc.Var, len(rows), len(tc.Rows)), 0)
+		for i, want := range tc.Rows {
+			var got []string
+			if i < len(rows) {
+				got = rows[i]
+			}
+			same := len(got) == len(want)
+			if same {
+				gs, ws := map[string]bool{}, map[string]bool{}
+				for _, x := range got {
+					gs[x] = true
+				}
+				for _, x := range want {
+					ws[x] = true
+				}
+				for x := range ws {
+					if !gs[x] {
+						same = false
+					}
+				}
+				for x := range gs {
+					if !ws[x] {
+						same = false
+					}
+				}
+			}
+			e.oblige(fx, st, "table", fmt.Sprintf("row[%d]", i), tf(same), fmt.Sprintf("%s row %d is %q, documented precedence level is %q", tc.Var, i, got, want), 0)
+		}
+		return
+	}
+	if tc.MapKeyMaxLen > 0 || len(tc.MapKeysContain) > 0 || tc.MapKeysInRows != "" || tc.MapValuesNonNil {
+		m, p, ok := e.mapOf(tc.Pkg, tc.Var)
+		if !ok {
+			e.unsup[fx.name] = append(e.unsup[fx.name], "map literal not found or keys not constant")
+			return
+		}
+		e.funcsDone = append(e.funcsDone, fx.name)
+		var rowSet map[string]bool
+		if tc.MapKeysInRows != "" {
+			rows, ok := e.rowsOf(tc.Pkg, tc.MapKeysInRows)
+			if ok {
+				rowSet = map[string]bool{}
+				for _, r := range rows {
+					for _, x := range r {
+						rowSet[x] = true
+					}
+				}
+			}
+		}
+		var keys []string
+		for k := range m {
+			keys = append(keys, k)
+		}
+		sort.Strings(keys)
+		for _, k := range keys {
+			if tc.MapKeyMaxLen > 0 {
+				e.oblige(fx, st, "table", fmt.Sprintf("keylen[%q]", k), tf(len(k) >= tc.MapKeyMinLen && len(k) <= tc.MapKeyMaxLen), fmt.Sprintf("key %q of %s must have length %d..%d", k, tc.Var, tc.MapKeyMinLen, tc.MapKeyMaxLen), 0)
+			}
+			if rowSet != nil {
+				e.oblige(fx, st, "table", fmt.Sprintf("key-in-%s[%q]", tc.MapKeysInRows, k), tf(rowSet[k]), fmt.Sprintf("key %q of %s must occur in %s", k, tc.Var, tc.MapKeysInRows), 0)
+			}
+			if tc.MapValuesNonNil {
+				nonNil := true
+				if id, ok := m[k].(*ast.Ident); ok && id.Name == "nil" {
+					nonNil = false
+				}
+				_ = p
+				e.oblige(fx, st, "table", fmt.Sprintf("value-non-nil[%q]", k), tf(nonNil), fmt.Sprintf("value of key %q of %s must not be nil", k, tc.Var), 0)
+			}
+		}
+		for _, k := range tc.MapKeysContain {
+			_, has := m[k]
+			e.oblige(fx, st, "table", fmt.Sprintf("has-key[%q]", k), tf(has), fmt.Sprintf("%s must have key %q", tc.Var, k), 0)
+		}
+		return
+	}
+	entries, ok := e.tableEntries(tc.Pkg, tc.Var)
 	if !ok {
 		e.unsup[fx.name] = append(e.unsup[fx.name], "composite literal not found or not constant")
 		return
